@@ -3154,7 +3154,10 @@ impl Compiler {
         } else {
             // The function is unused, but compile the optional arg values to check for errors
             for expression in optional_args.iter() {
-                self.compile_node(*expression, ctx.with_any_register())?;
+                let value = self.compile_node(*expression, ctx.with_any_register())?;
+                if value.is_temporary {
+                    self.pop_register()?;
+                }
             }
         }
 
